@@ -851,6 +851,64 @@ theorem tonelliShanks_sq [Fintype K] {p bits tc th s fuel : Nat} {c0 : K} (hcard
 
 end TS
 
+section TSnone
+variable {K : Type} [Field K] [DecidableEq K]
+
+/-- if `t` has order exactly `2^s` (and `c` order dividing `2^s`), the outer loop never sees `t = 1`: no fuel suffices. -/
+theorem tsLoop_none (h2 : (1 : K) ≠ -1) (innerFuel s : Nat) (hs : 1 ≤ s) : ∀ (fuel : Nat) (res c t : K) (m : Nat),
+    t ^ 2 ^ (s - 1) = -1 → c ^ 2 ^ s = 1 → tsLoop innerFuel fuel res c t m = none := by
+  have hss : 2 ^ s = 2 ^ (s - 1) * 2 := by rw [← pow_succ]; congr 1; omega
+  intro fuel
+  induction fuel with
+  | zero => intro res c t m _ _; rfl
+  | succ fuel ih =>
+    intro res c t m ht hc
+    rw [tsLoop]
+    have ht1 : t ≠ 1 := by
+      intro h; rw [h, one_pow] at ht; exact h2 ht
+    rw [if_neg ht1]
+    split
+    · rfl
+    · next i _ =>
+      simp only
+      rw [sqrN_eq]
+      have hb : (c ^ 2 ^ (m - i - 1)) ^ 2 ^ s = 1 := by rw [← pow_mul, mul_comm, pow_mul, hc, one_pow]
+      have hb' : (c ^ 2 ^ (m - i - 1) * c ^ 2 ^ (m - i - 1)) ^ 2 ^ (s - 1) = 1 := by
+        rw [← pow_two, ← pow_mul, mul_comm, ← hss, hb]
+      apply ih
+      · rw [mul_pow, ht, hb']; ring
+      · rw [hss, pow_mul, hb', one_pow]
+
+theorem tonelliShanks_none (h2 : (1 : K) ≠ -1) {bits tc th s fuel : Nat} {c0 : K} (hs : 1 ≤ s)
+    (htc : tc < 2 ^ bits) (hc0 : c0 ^ 2 ^ s = 1) {a : K} (ha0 : a ≠ 0) (ha : (a ^ tc) ^ 2 ^ (s - 1) = -1) :
+    tonelliShanks bits c0 tc th s fuel a = none := by
+  rw [tonelliShanks, if_neg ha0]
+  simp only
+  rw [fpExponentiate_eq_pow a htc]
+  exact tsLoop_none h2 fuel s hs fuel _ _ _ s ha hc0
+
+/-- in a finite field with `p - 1 = 2^s·tc`: on a non-square the loop never stops -/
+theorem tonelliShanks_not_isSquare [Fintype K] {p bits tc th s fuel : Nat} {c0 : K} (hcard : Fintype.card K = p)
+    (hs : 1 ≤ s) (hp : p - 1 = 2 ^ s * tc) (hodd : p % 2 = 1)
+    (htc : tc < 2 ^ bits) (hc0 : c0 ^ 2 ^ s = 1) {a : K} (ha : ¬ IsSquare a) :
+    tonelliShanks bits c0 tc th s fuel a = none := by
+  have hF : ringChar K ≠ 2 := ringChar_ne_two_of_card hcard hodd
+  have h0 : a ≠ 0 := by intro h; subst h; exact ha ⟨0, by simp⟩
+  have h12 : (1 : K) ≠ -1 := by
+    intro h; exact Ring.neg_one_ne_one_of_char_ne_two hF h.symm
+  apply tonelliShanks_none h12 hs htc hc0 h0
+  rw [← pow_mul]
+  have : tc * 2 ^ (s - 1) = Fintype.card K / 2 := by
+    rw [hcard]
+    have hs' : 2 ^ s = 2 * 2 ^ (s - 1) := by rw [← pow_succ']; congr 1; omega
+    have : p - 1 = 2 * (tc * 2 ^ (s - 1)) := by rw [hp, hs']; ring
+    omega
+  rw [this]
+  rcases FiniteField.pow_dichotomy hF h0 with h | h
+  · exact absurd ((FiniteField.isSquare_iff hF h0).2 h) ha
+  · exact h
+end TSnone
+
 set_option exponentiation.threshold 800
 
 /-! ### the library's fields and constants -/
@@ -968,6 +1026,19 @@ theorem frSqrt_mul_self (y : Fr) : frSqrt (y * y) = some y ∨ frSqrt (y * y) = 
   · left; rw [hz, h]
   · right; rw [hz, h]
 theorem frSqrt_zero : frSqrt 0 = some 0 := by decide +kernel
+/-- on non-squares the model never returns (the real loop spins), so: the routine terminates iff the input is a square -/
+theorem frSqrt_none {a : Fr} (ha : ¬ IsSquare a) : frSqrt a = none :=
+  tonelliShanks_not_isSquare Fr.card (by decide) fr_two_adicity r_odd (by decide) frRootOfUnity_pow_two_pow_32 ha
+
+theorem frSqrt_isSome_iff (a : Fr) : (frSqrt a).isSome ↔ IsSquare a := by
+  constructor
+  · intro h
+    by_contra hn
+    rw [frSqrt_none hn] at h
+    exact absurd h (by simp)
+  · intro h
+    obtain ⟨y, hy, _⟩ := frSqrt_sq h
+    rw [hy]; rfl
 
 /-- what the judge runs -/
 theorem fpSqrtByBits_fq (a : Fq) : fpSqrtByBits 384 a = some (fqSqrt a) := rfl
